@@ -64,6 +64,23 @@ fn quote(names: &[String]) -> String {
     format!("[{}]", names.join(", "))
 }
 
+/// line comments at the end of random lines and on lines of their own: rules that drop or build nodes and the
+/// token-preserving generator must cope with trivia everywhere
+fn commentify(source: &str, rng: &mut Rng) -> String {
+    let mut out = String::new();
+    for line in source.lines() {
+        if rng.chance(1, 6) {
+            out.push_str("-- note\n");
+        }
+        out.push_str(line);
+        if rng.chance(1, 3) && !line.contains("[[") && !line.contains('`') && !line.contains("--") {
+            out.push_str(*rng.pick(&[" -- c", " --[[b]]", " -- trailing ]] x", " --- doc"]));
+        }
+        out.push('\n');
+    }
+    out
+}
+
 fn pick_rules(rng: &mut Rng, pool: &[&str]) -> Vec<String> {
     let q = |s: &str| format!("\"{}\"", s);
     match rng.below(3) {
@@ -209,11 +226,64 @@ fn main() {
             let n = arg_u64(&args, "--n", 100);
             let size = arg_u64(&args, "--size", 7) as usize;
             let mut rng = Rng::new(seed ^ 0x5eed_0000);
+            // fixed part (profile c01): comment-bearing snippets x rule subsets that keep the comments, written by the
+            // token-preserving generator - nodes built by a rule have no token and are written next to the trivia of
+            // their neighbours
+            let mut fixed: Vec<(String, String, &'static str)> = Vec::new();
+            if profile == "c01" {
+                let snippets = [
+                    "local dbg = -- set by the build\n  1 == 2\next_p(dbg)\nreturn dbg",
+                    "local function resolved()\n  return -- resolved at build time\n    1 == 2\nend\next_p(resolved())",
+                    "ext_p(-- note\n  1 + 1 == 2, \"x\" .. -- c\n  \"y\", not -- why\n  nil)",
+                    "local t = { -- first\n  1 + 1, -- second\n  k = -- third\n    2 * 3 }\next_p(t[1], t.k)",
+                    "if -- always\n  1 < 2 then -- yes\n  ext_p(1) -- after\nelse -- no\n  ext_p(2)\nend",
+                    "local unused = -- dropped\n  ext_n(1) -- kept call\next_p(\"after\")",
+                    "while -- never\n  false do -- body\n  ext_p(\"never\")\nend -- done\next_p(\"next\")",
+                    "do -- empty\nend -- gone\next_p(1) -- stays",
+                    "local a, b = -- two\n  nil, -- first nil\n  ext_n(2) -- second\next_p(a, b)",
+                    "local obj = { v = 1 } -- table\nfunction obj:get() -- method\n  return self.v -- field\nend\next_p(obj:get(), obj[\"v\"]) -- index",
+                ];
+                let subsets: &[&[&str]] = &[
+                    &["remove_spaces", "compute_expression"],
+                    &["compute_expression", "remove_spaces"],
+                    &["remove_spaces", "compute_expression", "remove_unused_if_branch", "remove_unused_while"],
+                    &["remove_spaces", "remove_unused_variable", "remove_empty_do", "remove_nil_declaration"],
+                    &["compute_expression"],
+                    &["remove_spaces"],
+                    &["remove_spaces", "remove_method_definition", "convert_index_to_field", "remove_function_call_parens"],
+                    &["remove_spaces", "compute_expression", "remove_unused_if_branch", "remove_unused_while",
+                      "filter_after_early_return", "remove_empty_do", "remove_unused_variable", "remove_method_definition",
+                      "convert_index_to_field", "remove_nil_declaration", "remove_function_call_parens"],
+                ];
+                for snippet in snippets {
+                    for subset in subsets {
+                        let rules: Vec<String> = subset.iter().map(|r| format!("\"{}\"", r)).collect();
+                        fixed.push((snippet.to_owned(), quote(&rules), "\"retain_lines\""));
+                    }
+                }
+            }
+            let fixed_count = fixed.len() as u64;
+            for (k, (source, rules_json, generator)) in fixed.into_iter().enumerate() {
+                let input = term_of(parse(&source));
+                let out_ast = term_of(apply_to_ast(&source, &rules_json));
+                let e2e = match end_to_end(&source, &rules_json, generator) {
+                    Ok(text) => term_of(parse(&text).map_err(|e| format!("output does not parse ({}): {}", e, text))),
+                    Err(e) => format!("ERR:{}", one_line(e)),
+                };
+                println!(
+                    "{}\t{}\t{}\t{}\t{}\t{}\t{}\t{}\tSAME",
+                    1_000_000 + k as u64, profile, rules_json, generator, hex(source.as_bytes()), input, out_ast, e2e
+                );
+            }
+            let _ = fixed_count;
             for id in 0..n {
                 let case = make_case(&profile, &mut rng);
-                let source = Gen::new(&mut rng, case.features.clone()).program(size);
+                let mut source = Gen::new(&mut rng, case.features.clone()).program(size);
+                if rng.chance(1, 3) {
+                    source = commentify(&source, &mut rng);
+                }
                 let rules_json = quote(&case.rules);
-                let generator = *rng.pick(&["\"retain_lines\"", "\"dense\"", "\"readable\"", "{ name: \"dense\", column_span: 20 }"]);
+                let generator = *rng.pick(&["\"retain_lines\"", "\"retain_lines\"", "\"dense\"", "\"readable\"", "{ name: \"dense\", column_span: 20 }"]);
                 let input = term_of(parse(&source));
                 let out_ast = term_of(apply_to_ast(&source, &rules_json));
                 let e2e_text = end_to_end(&source, &rules_json, generator);
